@@ -31,26 +31,26 @@ fn scenario(c: &Case, plan: ChunkPlan, settle_between: bool) -> Scenario {
     let mut ev = vec![];
     let ok = Deco::default();
     for _ in 0..c.subs {
-        ev.push(Ev::Start { h: 0, kind: OpKind::Sub(0) });
+        ev.push(Ev::Start { h: 0, kind: OpKind::Sub(0), settle: false });
         ev.push(Ev::In(Inbound::Ack { sel: 0, deco: ok }));
     }
     for _ in 0..c.subs {
         ev.push(Ev::MakeStream { sel: 0 });
     }
     for _ in 0..c.pings {
-        ev.push(Ev::Start { h: 0, kind: OpKind::Ping });
+        ev.push(Ev::Start { h: 0, kind: OpKind::Ping, settle: false });
     }
     for _ in 0..c.pub1 {
-        ev.push(Ev::Start { h: 0, kind: OpKind::Pub1 });
+        ev.push(Ev::Start { h: 0, kind: OpKind::Pub1, settle: false });
     }
     for _ in 0..c.pub2 {
-        ev.push(Ev::Start { h: 0, kind: OpKind::Pub2 });
+        ev.push(Ev::Start { h: 0, kind: OpKind::Pub2, settle: false });
     }
     ev.push(Ev::Burst { items: c.items.clone(), plan, settle_between });
     if c.eof_after {
         ev.push(Ev::Terminate(Cause::Eof));
     }
-    Scenario { receive_max: None, events: ev }
+    Scenario { receive_max: None, max_packet_size: None, events: ev }
 }
 
 fn item() -> BoxedStrategy<Inbound> {
@@ -103,7 +103,7 @@ impl Property for C03 {
     }
 
     fn cases(tier: Tier) -> u32 {
-        tier.pick(4000, 100_000)
+        tier.pick(10_000, 150_000)
     }
 
     fn quick_profiles() -> &'static [&'static str] {
